@@ -897,8 +897,8 @@ func init() {
 		Rule:  "cell pairs: independent, ancestor/descendant, edge neighbours (re-levelled ±3), all neighbours at finer levels, the cell around a point placed relative to the first cell, the antipodal cell and its neighbours. Oracle: contact decided on the integer cube lattice (also across faces); otherwise 320-bit min over the 32 vertex/side pairs of the exact cells; MaxDistanceToCell = π − distance to the antipodal cell (contact: integer lattice of the negated box). Both argument orders. Non-trivial = not nested and (touching, or distance² ≤ 1e-12, or antipode touching/≤1e-12, or different faces).",
 		Quick: 25000, Thorough: 1000000}, genPair, checkPair)
 	ev.Define("contains_point", ev.Options{
-		Rule:  "half: arbitrary/cell-derived point and an ancestor (any level) of CellFromPoint(p); half: point placed relative to a cell. Leaf id within the cell's id range ⇒ ContainsPoint; point in the exact closed cell (decided exactly) ⇒ ContainsPoint; outside by more than 2ε(1+|u|) or on the wrong side of the face plane ⇒ not contained. Non-trivial = |uv margin| ≤ 8ε, or leaf-range and exact membership disagree.",
-		Quick: 100000, Thorough: 4000000}, genContains, checkContains)
+		Rule:  "quarter: point with (u,v) within 8 ulps of leaf-resolution boundary values (3/4 in the s,t band [0.2,0.3) where the uv->st->ij round trip is least accurate) and its leaf cell or an ancestor; quarter: arbitrary/cell-derived point and an ancestor (any level) of CellFromPoint(p); half: point placed relative to a cell. Leaf id within the cell's id range ⇒ ContainsPoint; point in the exact closed cell (decided exactly) ⇒ ContainsPoint; outside by more than 2ε(1+|u|) or on the wrong side of the face plane ⇒ not contained. Non-trivial = |uv margin| ≤ 8ε, or leaf-range and exact membership disagree.",
+		Quick: 800000, Thorough: 16000000}, genContains, checkContains)
 	ev.Define("bounds", ev.Options{
 		Rule:  "points decided exactly to lie in the closed exact cell (interior, on sides, at corners, moved ≤ 8 ulps inward if rounding put them outside): RectBound contains LatLngFromPoint(p) and the four vertices (strict), CapBound contains p and the exact corners up to 10ε·r+4ε·√r (strict ContainsPoint misses are counted). Non-trivial = within 1e-6 of the cell size of the boundary.",
 		Quick: 50000, Thorough: 2500000}, genInside, checkBounds)
